@@ -548,6 +548,18 @@ def key_coverage(rep, repo, cmod, f, nodevar, implvar, node_loop, line_loop, in_
     rep.note(f'substitute key coverage: {n_graph} graphs, {len(shapes)} shape classes, {n_eval} feasible node_map reads evaluated')
 
 
+def depends(rep, repo):
+    """substitute, eliminate_1to1_forks, copy and unpickling are built from the graph-edit primitives; what they preserve rests
+    on those primitives keeping pins and back-references exact (Line.remove with fork squeezing and renumbering,
+    swap-with-last deletion, constructor pin selection, back-reference pairing). Rule ids keep their C09. prefix."""
+    from checks import c09
+    cmod = repo.mod('circuit')
+    c09.removal(rep, cmod)
+    c09.swap_with_last(rep, cmod)
+    c09.ctor_order(rep, cmod)
+    c09.backrefs(rep, repo)
+
+
 def thorough(rep, repo):
     """Thorough tier: the quick rules plus checker self-validation on the C10 slice of the mutation corpus."""
     from kvstatic import thorough as thorough_mod
